@@ -49,7 +49,7 @@ def sx_unit(job):
         out["findings"] = {k: v[0] for k, v in specs.contracts[name].findings.items()}
     if ur.error is None:
         for ob in cx.obligations:
-            out["obligations"].append({"name": ob.name, "query": cx.query(ob), "query_rel": cx.query(ob, relevant=True), "query_dir": cx.query(ob, relevant=True, level=0), "meta": ob.meta})
+            out["obligations"].append({"name": ob.name, "query": cx.query(ob), "query_rel": cx.query(ob, relevant=True), "query_dir": cx.query(ob, relevant=True, level=0), "query_same": cx.query(ob, relevant=True, level="same"), "meta": ob.meta})
         covs = cx.covers
         if len(covs) > 6:
             step = len(covs) / 6.0
@@ -70,26 +70,31 @@ def discharge_all(units, timeout_s, jobs, thorough):
             tasks.append(ob)
 
     def one(ob):
-        # 1. hypotheses restricted to the cone of influence of the goal (dropping hypotheses is sound)
-        r = solve.solve_one(ob.pop("query_rel"), min(timeout_s, 4.0))
-        r["tried"] = {k + "/rel": v for k, v in r.get("tried", {}).items()}
+        # the full query and the one restricted to the goal's cone of influence race (dropping hypotheses is
+        # sound); then the definitions-only variant; in the thorough tier a last attempt with all back ends
+        qrel, qdir = ob.pop("query_rel"), ob.pop("query_dir")
+        cv = [("cvc5-1.0.3", solve.BACKENDS["cvc5-1.0.3"])]
+        # stage 1 (cheap, decides most obligations): cone-of-influence query on cvc5, short budget
+        qsame = ob.pop("query_same", None)
+        first = [("rel", qrel, False)] + ([("same", qsame, False)] if qsame else [])
+        r = solve.solve_multi(first, 3.0, backends=cv)
         if r["status"] != "unsat":
-            r0 = r
-            r = solve.solve_one(ob.pop("query_dir"), min(timeout_s, 8.0))
-            r["tried"] = {**r0.get("tried", {}), **{k + "/dir": v for k, v in r.get("tried", {}).items()}}
-        else:
-            ob.pop("query_dir")
-        if r["status"] != "unsat":
-            # 2. the full query
-            r1 = solve.solve_one(ob["query"], timeout_s)
-            r1["tried"] = {**{k + "/rel": v for k, v in r.get("tried", {}).items()}, **r1.get("tried", {})}
-            r = r1
-        if r["status"] not in ("unsat", "sat") and thorough:
-            # 3. all three back ends, longer budget
-            r2 = solve.solve_one(ob["query"], timeout_s * 3, backends=list(solve.BACKENDS.items()))
-            r2["tried"] = {**r.get("tried", {}), **{k + "/3": v for k, v in r2.get("tried", {}).items()}}
+            # stage 2: the full query on both back ends races the definitions-only query
+            r2 = solve.solve_multi([("full", ob["query"], True), ("rel", qrel, False)] + ([("same", qsame, False)] if qsame else []), timeout_s)
+            r2["tried"] = {**{k_ + "#1": v_ for k_, v_ in r.get("tried", {}).items()}, **r2.get("tried", {})}
             r = r2
-        ob["result"] = {k: r[k] for k in ("status", "backend", "time", "tried")}
+        if r["status"] not in ("unsat", "sat"):
+            r2 = solve.solve_multi([("dir", qdir, False)], min(timeout_s, 10.0))
+            r2["tried"] = {**r.get("tried", {}), **r2.get("tried", {})}
+            if r2["status"] == "unsat":
+                r = r2
+            else:
+                r["tried"] = r2["tried"]
+        if r["status"] not in ("unsat", "sat") and thorough:
+            r3 = solve.solve_multi([("full3", ob["query"], True)], timeout_s * 3, backends=list(solve.BACKENDS.items()))
+            r3["tried"] = {**r.get("tried", {}), **r3.get("tried", {})}
+            r = r3
+        ob["result"] = {k: r.get(k) for k in ("status", "backend", "time", "tried", "variant")}
         if r["status"] != "unsat":
             ob["result"]["detail"] = r.get("detail", "")[:1500]
         return ob
@@ -164,7 +169,7 @@ def main(argv=None):
     with ctx.Pool(min(a.jobs, len(jobs)), initializer=_init) as pool:
         units = pool.map(sx_unit, jobs, chunksize=1)
     timeout_s = P.get("timeout", 10.0) * (3 if tier == "thorough" else 1)
-    solver_wall = discharge_all(units, timeout_s, max(4, a.jobs * 3 // 4), tier == "thorough")
+    solver_wall = discharge_all(units, timeout_s, max(4, a.jobs // 2), tier == "thorough")
 
     # ------------------------------------------------------------------ verdicts
     engine_errors = [u for u in units if u.get("error")]
@@ -309,6 +314,16 @@ def main(argv=None):
     # ------------------------------------------------------------------ report
     print("%s [%s]: %d units, %d obligations (%d by solver, %d reduced to true), %d undischarged, wall %.0fs"
           % (prop, tier, len(units), len(all_obs) + n_triv, len(all_obs), n_triv, len(failed), wall))
+    slow = sorted(((ob["result"]["time"], ob["name"], ob["result"]["backend"]) for ob in all_obs if ob["result"]["status"] == "unsat"
+                   and ob["result"]["time"] > 5.0), reverse=True)
+    for t_, n_, b_ in slow[:8]:
+        print("  slow %.1fs %s (%s)" % (t_, n_, b_))
+    stages = {}
+    for ob in all_obs:
+        tr = ob["result"].get("tried", {})
+        st_ = ob["result"].get("variant") or "none"
+        stages[st_] = stages.get(st_, 0) + 1
+    print("  discharge stages:", stages)
     for l in kf_lines:
         print(l)
     if engine_errors:
